@@ -67,6 +67,12 @@ func checkDirIsMapOpt(dir datamodel.Node, want map[string]cid.Cid, nonMembers []
 	// MapIterator
 	seen := map[string]bool{}
 	steps := 0
+	type keptPair struct {
+		k, v datamodel.Node
+		ks   string
+		c    cid.Cid
+	}
+	var kept []keptPair // what an iterator hands out are values: they must read the same after the iteration moved on
 	for it := dir.MapIterator(); !it.Done(); {
 		steps++
 		if steps > 2*len(want)+10 {
@@ -95,9 +101,36 @@ func checkDirIsMapOpt(dir datamodel.Node, want map[string]cid.Cid, nonMembers []
 		if w != c {
 			return fmt.Errorf("MapIterator: %q -> %s, want %s", ks, c, w)
 		}
+		if len(kept) < 64 || steps%97 == 0 {
+			kept = append(kept, keptPair{k, v, ks, c})
+		}
 	}
 	if len(seen) != len(want) {
 		return fmt.Errorf("MapIterator yielded %d entries, want %d", len(seen), len(want))
+	}
+	for i, kp := range kept {
+		ks, err := kp.k.AsString()
+		c, err2 := linkOf(kp.v)
+		if err != nil || err2 != nil || ks != kp.ks || c != kp.c {
+			return fmt.Errorf("pair #%d yielded as %q -> %s reads %q -> %s after the iteration moved on (%v, %v)", i, kp.ks, kp.c, ks, c, err, err2)
+		}
+	}
+	// count-driven iteration: Next() called Length() times without asking Done() in between yields the same entries
+	if n := len(want); n > 0 {
+		it := dir.MapIterator()
+		for i := 0; i < n; i++ {
+			k, v, err := it.Next()
+			if err != nil || k == nil || v == nil {
+				return fmt.Errorf("count-driven iteration (no Done() polling): Next #%d of %d returned (%v, %v, %v)", i+1, n, k, v, err)
+			}
+			ks, _ := k.AsString()
+			if c, _ := linkOf(v); want[ks] != c {
+				return fmt.Errorf("count-driven iteration: Next #%d yielded %q -> %s", i+1, ks, c)
+			}
+		}
+		if !it.Done() {
+			return fmt.Errorf("count-driven iteration: not Done after Length() = %d calls of Next", n)
+		}
 	}
 	nd, isNative := dir.(nativeDir)
 	if !isNative {
